@@ -68,6 +68,8 @@ class FakeNode:
                     skip = len(buf.decode("utf-8")) - len(buf.decode("utf-8").lstrip())
                     buf = buf.decode("utf-8")[skip + end:].encode("utf-8")
                     resp = self.handle(req)
+                    if resp is None:
+                        return    # the reply is lost: the connection is closed without an answer
                     c.sendall((json.dumps(resp) + "\n\n").encode())
         except Exception:
             pass
@@ -112,6 +114,11 @@ class FakeNode:
                       if x["payment_hash"] == p.get("payment_hash") and (p.get("status") in (None, x["status"]))]
             return ok({"payments": ps})
         if m == "pay":
+            if self.pay_mode == "lost-then-fail":
+                # the first pay request is received (the node acts on it) but its reply never reaches the plugin
+                with self.lock:
+                    n = len([c for c in self.calls if c[0] == "pay"])
+                return None if n == 1 else err(210, "Ran out of routes to try")
             if self.pay_mode.startswith("complete:"):
                 pre = self.pay_mode.split(":")[1]
                 return ok({"destination": "02c6047f9441ed7d6d3045406e95c07cd85c778e4b8cef3ca7abac09b95c709ee5", "payment_hash": hashlib.sha256(bytes.fromhex(pre)).hexdigest(),
@@ -609,6 +616,42 @@ def codes_check(seed, tier, wd):
         for l in recs:
             f.write(json.dumps(l) + "\n")
     rc, out = run.tlc_trace("E2eTrace.tla", "E2eTrace.cfg", tf, wd + "/e2ec")
+    if "No error has been found" not in out:
+        raise run.ToolError("E2eTrace failed:\n" + out[-2000:])
+    viol = [(runno, text, recs[runno - 1]) for runno, text in run.tagged(out, "E2EVIOL")]
+    return {"runs": len(recs), "violations": viol}
+
+
+def lostreply_check(seed, tier, wd):
+    """C05 on the real binary (rpc.rs is only compiled there): the reply of the pay command is lost at transport level
+    after the node received the request.  The node must not be sent a second pay for that hash."""
+    build()
+    T = templates()
+    recs = []
+    for runno in (1, 2):
+        pl = Plugin(options={OPT[k]: v for k, v in dict(DEFAULTS, mpp=5).items()}, height=1000)
+        pl.node.node_id = T["local"]
+        try:
+            pl.node.pay_mode = "lost-then-fail"
+            if pl.handshake() != "ok":
+                raise run.ToolError("real binary did not start for the lost-reply scenario")
+            A = T["A"]; need = A + A * 5000 // 10**6
+            pl.send(patched(T["ok"], "A1", 1, need, need, 1000 + 34 + 1008 + 500, 70000))
+            fr = pl.read_frames(lambda f: any(ok and o.get("id") == "A1" for ok, o in f), 4.0)
+            time.sleep(0.3)
+            pays = len([c for c in pl.node.calls if c[0] == "pay"])
+            recs.append({"ev": "e2e", "run": runno, "sent": ['"A1"'], "leftover": pl.leftover(), "pay_calls": pays, "pay_calls_max": 1,
+                         "frames": [{"json": ok, "id": json.dumps(o.get("id")) if ok and "id" in o else "none",
+                                     "kind": ("result" if ok and "result" in o else "error" if ok and "error" in o else "notification" if ok and "method" in o else "garbage"),
+                                     "result": (o.get("result", {}).get("result", "") if ok and isinstance(o.get("result"), dict) else "")}
+                                    for ok, o in fr if not (ok and o.get("method") == "log")]})
+        finally:
+            pl.close()
+    tf = wd + "/e2e_lost.ndjson"
+    with open(tf, "w") as f:
+        for l in recs:
+            f.write(json.dumps(l) + "\n")
+    rc, out = run.tlc_trace("E2eTrace.tla", "E2eTrace.cfg", tf, wd + "/e2el")
     if "No error has been found" not in out:
         raise run.ToolError("E2eTrace failed:\n" + out[-2000:])
     viol = [(runno, text, recs[runno - 1]) for runno, text in run.tagged(out, "E2EVIOL")]
